@@ -46,7 +46,17 @@ where
         to: GraphIndex,
         handler: Handler,
     ) -> Self {
-        let add = handler.process(from, 0).unwrap_or_default();
+        let origin = handler.process(from, 0);
+        // The conditions can stop the search at the origin
+        // (cost 0) in which case no path can be taken from it.
+        let paths = if matches!(origin, Ok((0, _))) {
+            vec![]
+        } else {
+            vec![Path {
+                elements: vec![(from, origin.unwrap_or_default().1)],
+                cost: 0,
+            }]
+        };
 
         Self {
             current_path: Path {
@@ -57,10 +67,7 @@ where
             graph,
             storage,
             handler,
-            paths: vec![Path {
-                elements: vec![(from, add.1)],
-                cost: 0,
-            }],
+            paths,
             result: vec![],
             visited: BitSet::new(),
         }
